@@ -39,7 +39,7 @@ from harness.common import SEED, Check, MachineryError, cap, parse_printed_json,
 PID = "C14"
 TLC_WORKERS = int(os.environ.get("VERIF_TLC_WORKERS", "8") or 8)  # other checks share the machine
 EVAL_WORKERS = int(os.environ.get("VERIF_EVAL_WORKERS", "8") or 8)
-TEXTURES = ("uniform", "single", "clustered", "girdle", "halfturn", "twinned")
+TEXTURES = ("uniform", "single", "clustered", "girdle", "halfturn", "twinned", "halves")
 AXIS_ROW = {"a": 0, "b": 1, "c": 2}
 TRACE_DEFECT = "trace-"
 CLAUSES = ("raises", "finite", "range", "permutation", "frame-rotation", "twofold-relabelling",
@@ -75,6 +75,9 @@ def texture(cls, n, rng, mult=()):
         twin = np.column_stack([q[:, 1], -q[:, 0], q[:, 3], -q[:, 2]])  # so <q, twin> = 0 in the float32 arithmetic of the histogram
         return Rotation.from_quat(np.vstack([q, twin])).as_matrix()
     base = _random_rotations(1, rng)
+    if cls == "halves":  # not exchangeable: a clustered population followed by a uniformly random one
+        h = n // 2
+        return np.concatenate([(Rotation.from_rotvec(rng.normal(scale=np.deg2rad(8.0), size=(h, 3))) * base).as_matrix(), _random_rotations(n - h, rng).as_matrix()])
     if cls == "single":
         return np.repeat(base.as_matrix(), n, axis=0)
     if cls == "clustered":  # ~8 degree scatter about one orientation
